@@ -1035,7 +1035,8 @@ class CheckC16(TwinCheck):
     fault_kinds = CheckC01.fault_kinds
 
     def generate(self, r, seed, tier):
-        algo = r.choice(gen.ALGOS_ALL)
+        # the two algorithms that compare coordinates get extra weight
+        algo = r.choice(gen.ALGOS_ALL + ["Zooming", "Zooming", "Zooming", "DOO"])
         mode = r.choice(["scale2", "scale2", "shift-dyadic", "tol"])
         coord_sensitive = algo == "Zooming"
         parts = None
@@ -1056,8 +1057,12 @@ class CheckC16(TwinCheck):
             # same expression) or has a margin of half a cell width, so rounding cannot flip it while cells are much wider
             # than an ulp (judged up to depth 40)
             zoom_tol = True
-            if A["partition"] not in gen.PARTS_MIDPOINT:
-                A["partition"] = dict(r.choice(gen.PARTS_MIDPOINT))
+            # Binary and DimensionBinary only: K-ary cuts come from np.linspace (lo + i*step), the arm from (lo+hi)/2 - two
+            # expressions that may differ in the last bit on non-dyadic boxes, so there the tie is not position-independent
+            if A["partition"]["cls"] not in ("BinaryPartition", "DimensionBinaryPartition"):
+                A["partition"] = dict(r.choice([{"cls": "BinaryPartition"}, {"cls": "DimensionBinaryPartition"}]))
+            if r.random() < 0.6:
+                A["params"] = {"nu": gen.loguniform(r, 1, 20), "rho": r.uniform(0.4, 0.95)}
         elif (coord_sensitive or doo_default) and mode == "tol":
             mode = "shift-dyadic" if doo_default else r.choice(["scale2", "shift-dyadic"])
             if mode == "shift-dyadic" and A["partition"] not in gen.PARTS_MIDPOINT:
